@@ -87,6 +87,15 @@ def workflows():
         {'stage0.G': m(), 'stage1.G': m(1), 'stage1.Obs': m(1, ['stage0.G', 'stage1.G'], repeat=True)})
     add('xobs-samename-rev', [comp('G'), comp('G', stage=1), obs('Obs', ['stage0.G:ref', 'stage1.G:ref'], stage=1)],
         {'stage0.G': m(), 'stage1.G': m(1), 'stage1.Obs': m(1, ['stage0.G', 'stage1.G'], repeat=True)})
+    # two independent chains in one stage (in both node orders): the fate of one chain must not leak into the other
+    add('twochains', [comp('A'), comp('B', ['A:ref']), comp('C'), comp('D', ['C:ref'])],
+        {'stage0.A': m(), 'stage0.B': m(producers=['stage0.A']), 'stage0.C': m(), 'stage0.D': m(producers=['stage0.C'])})
+    add('twochains-rev', [comp('Y'), comp('Z', ['Y:ref']), comp('K'), comp('J', ['K:ref'])],
+        {'stage0.Y': m(), 'stage0.Z': m(producers=['stage0.Y']), 'stage0.K': m(), 'stage0.J': m(producers=['stage0.K'])})
+    # a component named like a top-level folder of the package, consumed through a stage-qualified reference
+    W['folder-named'] = ({'components': [comp('lib'), comp('C', ['stage0.lib:ref'])]},
+                         {'stage0.lib': m(), 'stage0.C': m(producers=['stage0.lib'])})
+    FOLDER_EXTRAS['folder-named'] = {'extra_files': {'lib/readme.txt': 'a top-level folder called like the component'}}
     # `repeatInterval: 0` does not make a component repeat: B is a plain consumer of A
     add('chain2-zero', [comp('A'), comp('B', ['A:ref'], wa={'repeatInterval': 0})],
         {'stage0.A': m(), 'stage0.B': m(producers=['stage0.A'])})
@@ -150,6 +159,7 @@ def workflows():
 
 
 DOWHILE_EXTRAS = {}
+FOLDER_EXTRAS = {}
 
 
 # exit-reason alphabet of one task execution: (label, reason, duration)
@@ -286,7 +296,8 @@ TRACE_GROUPS = {
 }
 TRACE_SCENARIOS = [('pair', {}, {}), ('pair', {'stage0.P1': 'KS'}, {}), ('pair', {'stage0.P1': 'KF'}, {'stage0.P2': 40.0}),
                    ('chain2', {}, {}), ('chain2', {'stage0.A': 'RS'}, {}), ('chain2', {'stage0.A': 'KF'}, {}),
-                   ('fanin', {'stage0.P1': 'KF', 'stage0.P2': 'RS'}, {}), ('observer', {}, {}), ('observer', {'stage0.A': 'KS'}, {})]
+                   ('fanin', {'stage0.P1': 'KF', 'stage0.P2': 'RS'}, {}), ('observer', {}, {}), ('observer', {'stage0.A': 'KS'}, {}),
+                   ('twochains', {'stage0.A': 'KS'}, {'stage0.C': 25.0})]
 # quick: these, plus two more (scenario, group) combinations that rotate with VERIF_SEED; thorough: all of them
 TRACE_QUICK = [('pair', {}, 'loop'), ('pair', {'stage0.P1': 'KS'}, 'loop'), ('pair', {'stage0.P1': 'KF'}, 'finish'),
                ('chain2', {'stage0.A': 'RS'}, 'postmortem')]
@@ -417,7 +428,7 @@ def build(scn):
         d = scn['dur'].get(n, 0.0)
         script[n] = [['LaunchOSError' if r == 'SubmissionFailed' else r.rstrip('!'), d] for r in seq]
     stages = sorted({meta[n]['stage'] for n in meta if meta[n]['stage'] >= scn.get('start', 0)})
-    ex = DOWHILE_EXTRAS.get(scn['wf'], {})
+    ex = DOWHILE_EXTRAS.get(scn['wf'], {}) or FOLDER_EXTRAS.get(scn['wf'], {})
     return Scenario(doc, script=script, name=scn['wf'], extra_files=ex.get('extra_files'), exit_files=ex.get('exit_files'),
                     outmode=scn.get('outmode'), memo=scn.get('memo'),
                     stages=(stages if scn.get('start') else None)), meta, mscript, attrs, stages
@@ -693,7 +704,7 @@ def run(ctx, which):
     if ctx.tier != 'thorough':
         fixed = [x for x in traced if (x['wf'], x['labels'], x['group']) in TRACE_QUICK or (x['group'] == 'pause' and x['wf'] == 'dowhile-same' and x['pause'] == [1.5, 2.5])]
         rest = [x for x in traced if x not in fixed and x['group'] != 'schedule']
-        traced = fixed + [rest[(2 * ctx.seed + k) % len(rest)] for k in range(2)]
+        traced = fixed + ([rest[(2 * ctx.seed + k) % len(rest)] for k in range(2)] if rest else [])
     races = [(w, l, {}) for w, l in races] + [('late-sibling', {'stage0.Y': 'KF', 'stage0.X': 'RS'}, {'stage0.X': 24.0}),
                                              ('fanin', {'stage0.P1': 'KF', 'stage0.P2': 'RS'}, {'stage0.P2': 25.0003}),
                                              ('xreplica-agg-slow', {'stage0.S0': 'KF'}, {'stage0.S1': 40.0, 'stage0.X': 40.0})]
